@@ -51,6 +51,11 @@ type c18Script struct {
 	durs  []pause
 }
 
+// c18ErrList is an error type with an uncomparable dynamic type.
+type c18ErrList []string
+
+func (e c18ErrList) Error() string { return fmt.Sprint([]string(e)) }
+
 type c18Inv struct {
 	n         int
 	script    c18Script
@@ -305,6 +310,11 @@ func c18Retry() {
 		case i < inv.script.nFail || inv.script.end < 0:
 			c.outcome = c18Plain
 			c.err = fmt.Errorf("plain error %d.%d", inv.n, i)
+			if (inv.n+i)%3 == 2 {
+				// an error whose dynamic type is not comparable (a slice): still just a plain error
+				c.err = c18ErrList{"plain", "uncomparable"}
+				simrt.Probe("uncomparable_plain_error")
+			}
 			simrt.Fault("op_error")
 		case inv.script.end == 0:
 			c.outcome = c18Success
@@ -347,10 +357,11 @@ func c18Retry() {
 		// the random slot ranges the library asked for: one draw per plain failure, the k-th over
 		// exactly 2^min(k,31) slots (the range is what the math/rand seam is asked for, so a range that
 		// is too small is visible even when the drawn slot happens to be legal)
-		var draws []int64
+		var draws, slots []int64
 		for _, d := range simrt.RandLog()[inv.randAtInv:] {
 			if d.Task == st.rid {
 				draws = append(draws, d.N)
+				slots = append(slots, d.Value)
 			}
 		}
 		plain := 0
@@ -371,6 +382,35 @@ func c18Retry() {
 				}
 			}
 			simrt.Probe("slot_ranges_checked")
+			// ... and the wait requested after failure k is exactly (the slot that was drawn) x (the rate,
+			// 300ms when the rate argument is <= 0): a timer of that duration, or none when the slot is 0
+			ti := 0
+			var timers []time.Duration
+			for _, r := range simrt.TimerLog()[inv.logAtInv:inv.logAtRet] {
+				if r.Task == st.rid && r.Desc == "timer" {
+					timers = append(timers, r.D)
+				}
+			}
+			exact := true
+			for i, m := range slots {
+				want := time.Duration(m) * st.eff
+				if m == 0 {
+					continue
+				}
+				if ti >= len(timers) || timers[ti] != want {
+					got := time.Duration(-1)
+					if ti < len(timers) {
+						got = timers[ti]
+					}
+					simrt.Failf("C18.wait-exact", "invocation %d: after failure %d the slot drawn was %d, so the wait must be %d x %v = %v; the timer requested was %v (-1ns: none) (rate argument %v)", inv.n, i+1, m, m, st.eff, want, got, st.rate)
+					return false
+				}
+				ti++
+			}
+			if exact && ti != len(timers) {
+				simrt.Failf("C18.wait-exact", "invocation %d: %d timers were requested but only %d non-zero slots were drawn", inv.n, len(timers), ti)
+				return false
+			}
 		} else {
 			simrt.Probe("slot_draws_not_one_per_failure")
 		}
